@@ -252,6 +252,10 @@ def _prelude_streams():
         "cut_in_len64": B(wire.BINARY, b"a" * 70000)[:5],
         "cut_in_header": B(wire.TEXT, b"abc")[:1],
         "cut_in_payload": B(wire.BINARY, b"b" * 300)[:40],
+        # what is left unread looks like text a line-oriented parser reacts to (spaces, CRLF, a header block)
+        "cut_in_payload_with_spaces": B(wire.TEXT, b"the quick brown fox jumps over the lazy dog")[:27],
+        "cut_in_payload_looks_like_http": B(wire.BINARY, b"HTTP/1.1 200 OK\r\nSec-WebSocket-Accept: stale\r\nUpgrade: no\r\n\r\n"
+                                            b"HTTP/1.1 403 Forbidden\r\n\r\ntrailing words")[:-6],
         "open_text_fragment": B(wire.TEXT, b"abc", fin=0),
         "open_binary_fragment": B(wire.BINARY, b"abc", fin=0) + B(wire.PING, b"p"),
         "reserved_bits": B(wire.TEXT, b"x", rsv2=1),
